@@ -74,7 +74,10 @@ impl Effect for Distortion {
 					output.right / (1.0 + output.right.abs()),
 				),
 			};
-			output /= drive;
+			// at or below -60 dB the drive amplitude is exactly 0 and so is the driven signal
+			if drive > 0.0 {
+				output /= drive;
+			}
 
 			*frame = output * mix.sqrt() + *frame * (1.0 - mix).sqrt()
 		}
